@@ -275,17 +275,17 @@ Proof.
       destruct (IH y1 (spec_step d st) y' os') as [HR' Hm']; auto.
       { pose proof (run_stmt_rep (mem y) d st c HR Hk1) as X. rewrite Ers in X. cbn [e_store e_out] in X.
         apply X; [|reflexivity].
-        pose proof (run_events_free_mono r y1 y' os' Hs2 Er) as M. cbn [mem y1] in M.
+        pose proof (run_events_free_mono r y1 y' os' Hs2 Er) as M. unfold y1 in M. cbn [mem] in M.
         lia. }
       cbn [acked_stmts' combine flat_map app]. fold (acked_stmts' r os'). cbn [spec_run].
-      unfold spec_step in HR'. split; [|cbn [mem] in Hm'; lia].
+      unfold spec_step in HR'. split; [|unfold y1 in Hm'; cbn [mem] in Hm'; lia].
       destruct (spec_exec d st); exact HR'.
     + destruct (run_events y1 r) as [fin os'] eqn:Er. inversion Hrun; subst fin os. clear Hrun.
       apply andb_true_iff in Hearly as [He1 He2].
       pose proof (fails_early_same_pages (mem y) st e) as X. rewrite Ers in X. cbn [e_out e_store] in X.
       destruct (X eq_refl He1) as (Xf & Xp & Xn & _).
       destruct (IH y1 d y' os') as [HR' Hm']; auto.
-      { cbn [mem y1]. eapply Rep_same_pages; eauto. }
+      { unfold y1. cbn [mem]. eapply Rep_same_pages; eauto. }
       cbn [acked_stmts' combine flat_map app]. fold (acked_stmts' r os'). split; [exact HR'|].
-      cbn [mem y1] in Hm'. lia.
+      unfold y1 in Hm'. cbn [mem] in Hm'. lia.
 Qed.
